@@ -29,14 +29,20 @@ var c12Names = []c12Name{
 	{".txt", ""}, {".txt.twig", ""}, {"", "html"}, {".xml", "html"}, {".", "html"}, {".unknown.twig", "html"}, {".twig", "html"},
 }
 
-const c12Positions = 22
+const c12Positions = 25
 
 // inline sources (the template name is the source) ending in text that looks like a file extension
 var c12InlineSuffix = map[int]string{2: "v1.0 e.g. end", 3: " see notes.txt", 4: " app.js", 5: " x.css.twig"}
 
 // c12Scenario builds the templates of print position pos with the print expression E.
 // direct reports whether the value is printed directly to the final output.
+// crossType: positions 22..24 mix content types and fix their own names; they return the content type that must apply to the print.
 func c12Scenario(pos int, ext, E string) (tpls map[string]string, main string, direct bool) {
+	tpls, main, direct, _ = c12ScenarioX(pos, ext, E)
+	return
+}
+
+func c12ScenarioX(pos int, ext, E string) (tpls map[string]string, main string, direct bool, crossType string) {
 	t := func(n string) string { return n + ext }
 	p := "AQ{{ " + E + " }}QZ"
 	inner := "Q{{ " + E + " }}Q"
@@ -101,6 +107,22 @@ func c12Scenario(pos int, ext, E string) (tpls map[string]string, main string, d
 		tpls[t("base")] = "A{% block b %}" + inner + "{% endblock %}Z"
 	case 21:
 		tpls[main] = "A{% if false %}{% block b %}" + inner + "{% endblock %}{% endif %}{{ block('b')|raw }}Z"
+	// mixed content types: the type of the template in which the print is written applies
+	case 22: // an html page includes a js partial
+		main = "page.html"
+		tpls[main] = "A{% include 'part.js' %}Z"
+		tpls["part.js"] = inner
+		crossType = "js"
+	case 23: // a js child extends an html base and overrides the block
+		main = "child.js"
+		tpls[main] = "{% extends 'base.html' %}{% block b %}" + inner + "{% endblock %}"
+		tpls["base.html"] = "A{% block b %}x{% endblock %}Z"
+		crossType = "js"
+	case 24: // a js child extends an html base; the print is in the base's own block
+		main = "child.js"
+		tpls[main] = "{% extends 'base.html' %}{% block other %}{% endblock %}"
+		tpls["base.html"] = "A{% block b %}" + inner + "{% endblock %}Z"
+		crossType = "html"
 	}
 	return
 }
@@ -166,6 +188,12 @@ func c12Run(c core.Case) core.Result {
 	if ni >= 0 {
 		ext, typ = c12Names[ni].ext, c12Names[ni].typ
 	}
+	if pos >= 22 { // mixed content types: fixed names, the print's own template decides
+		if ni != 0 {
+			return core.Skipped("cross-type-position-has-fixed-names")
+		}
+		typ = map[int]string{22: "js", 23: "js", 24: "html"}[pos]
+	}
 	E := c12Forms[form]
 	switch mod {
 	case 1:
@@ -189,7 +217,10 @@ func c12Run(c core.Case) core.Result {
 	if (mod == 6 || mod == 7) && form > 2 {
 		return core.Skipped("safe-value-lost-by-expression")
 	}
-	tpls, main, direct := c12Scenario(pos, ext, E)
+	tpls, main, direct, cross := c12ScenarioX(pos, ext, E)
+	if cross != "" && cross != typ {
+		return core.Violation("harness", "cross-type table out of sync")
+	}
 	if ni < 0 {
 		if len(tpls) != 1 {
 			return core.Skipped("inline-needs-single-template")
@@ -322,10 +353,10 @@ func c12Levels(tier string) []core.Level {
 	}
 	names := append(all(len(c12Names)), -1, -2, -3, -4, -5)
 	lv := []core.Level{
-		{Name: "22 print positions x variable x all 13 payloads x all 18 template names x no modifier", Gen: func(emit func(core.Case)) {
+		{Name: "25 print positions x variable x all 13 payloads x all 18 template names x no modifier", Gen: func(emit func(core.Case)) {
 			gen(all(len(c12Payloads)), []int{0}, []int{0}, names, emit)
 		}},
-		{Name: "22 positions x 6 value forms x 13 payloads x 18 names x 10 modifiers (full product)", Gen: func(emit func(core.Case)) {
+		{Name: "25 positions x 6 value forms x 13 payloads x 18 names x 10 modifiers (full product)", Gen: func(emit func(core.Case)) {
 			gen(all(len(c12Payloads)), all(len(c12Forms)), all(c12Mods), names, emit)
 		}},
 	}
@@ -336,7 +367,7 @@ func init() {
 	core.Register(&core.Check{
 		ID:       "C12",
 		Category: "exploration",
-		Rule: "full product of 22 print positions (top level, if / else / elseif branch, for body, for-else, block, nested block, overriding block of a child, block via parent(), inherited block, included template, embedded template, embed override block, set-capture body, filter section, macro body, imported macro; macro result / capture / parent() / block() printed with |raw) x 6 value forms (variable, attribute, function result, concatenation, conditional, interpolation) x 13 payloads (< > \" ' & </script> \\ ; newline, multi-byte, astral, mixed) x 18 template names (html, js, css, txt with and without .twig, no extension, unknown extension, trailing dot, inline sources without a dot, with dots, and ending in '.txt' / '.js' / '.css.twig') x 10 modifiers (none, raw, escape, escape('html'), escape(own type), escape('js'), escape('txt'), a chain of unknown strategies, value marked safe for the same / another type), in a twig.New environment. " +
+		Rule: "full product of 25 print positions (top level, if / else / elseif branch, for body, for-else, block, nested block, overriding block of a child, block via parent(), inherited block, included template, embedded template, embed override block, set-capture body, filter section, macro body, imported macro; macro result / capture / parent() / block() printed with |raw; html page including a js partial, js child overriding / inheriting a block of an html base) x 6 value forms (variable, attribute, function result, concatenation, conditional, interpolation) x 13 payloads (< > \" ' & </script> \\ ; newline, multi-byte, astral, mixed) x 18 template names (html, js, css, txt with and without .twig, no extension, unknown extension, trailing dot, inline sources without a dot, with dots, and ending in '.txt' / '.js' / '.css.twig') x 10 modifiers (none, raw, escape, escape('html'), escape(own type), escape('js'), escape('txt'), a chain of unknown strategies, value marked safe for the same / another type), in a twig.New environment. " +
 			"Oracle: expected content type = registered escaper of the extension, none for txt, html otherwise; a directly printed value must decode (decoder of that context) to the payload and lie in the context's inert alphabet: escaped exactly once; raw and same-type safe values verbatim; values reaching the output through a capture / macro result / parent() must be inert. distinct = distinct configuration; non-trivial = an assertion was made",
 		Assumptions: []string{
 			"for an explicit escape of another type (html inside js/css, js inside css, txt or an unknown strategy anywhere) 'exactly once' is ambiguous; only inertness for the template's own type is asserted, which the statement pins under either reading",
